@@ -610,4 +610,87 @@ theorem labels_closed (n : Nat) (es : List (Nat × Nat)) (hr : ∀ e ∈ es, e.1
   foldl_closed n es _ (by simp) hr
 
 
+
+/-! ### the edge list -/
+
+theorem entry_eq' (L : Mat) (i j : Nat) : entry L i j = (L[i]?.getD [])[j]?.getD 0 := by
+  simp [entry]
+
+theorem mem_rowEdges (i j0 : Nat) (vs : Vec) (a b : Nat) :
+    (a, b) ∈ rowEdges i j0 vs ↔ a = i ∧ ∃ k, b = j0 + k ∧ vs[k]?.getD 0 ≠ 0 := by
+  induction vs generalizing j0 with
+  | nil => simp [rowEdges]
+  | cons v vs ih =>
+    unfold rowEdges
+    split
+    · rename_i hv
+      rw [List.mem_cons, ih]
+      constructor
+      · rintro (h | ⟨rfl, k, rfl, hk⟩)
+        · simp only [Prod.mk.injEq] at h
+          obtain ⟨rfl, rfl⟩ := h
+          exact ⟨rfl, 0, rfl, by simpa using hv⟩
+        · exact ⟨rfl, k + 1, by omega, by simpa using hk⟩
+      · rintro ⟨rfl, k, rfl, hk⟩
+        cases k with
+        | zero => left; rfl
+        | succ k => right; exact ⟨rfl, k, by omega, by simpa using hk⟩
+    · rename_i hv
+      have hv0 : v = 0 := by simpa using hv
+      rw [ih]
+      constructor
+      · rintro ⟨rfl, k, rfl, hk⟩
+        exact ⟨rfl, k + 1, by omega, by simpa using hk⟩
+      · rintro ⟨rfl, k, rfl, hk⟩
+        cases k with
+        | zero => simp [hv0] at hk
+        | succ k => exact ⟨rfl, k, by omega, by simpa using hk⟩
+
+theorem mem_edgesFrom (i0 : Nat) (rs : Mat) (a b : Nat) :
+    (a, b) ∈ edgesFrom i0 rs ↔ ∃ k, a = i0 + k ∧ (rs[k]?.getD [])[b]?.getD 0 ≠ 0 := by
+  induction rs generalizing i0 with
+  | nil => simp [edgesFrom]
+  | cons r rs ih =>
+    unfold edgesFrom
+    rw [List.mem_append, mem_rowEdges, ih]
+    constructor
+    · rintro (⟨rfl, k, rfl, hk⟩ | ⟨k, rfl, hk⟩)
+      · exact ⟨0, rfl, by simpa using hk⟩
+      · exact ⟨k + 1, by omega, by simpa using hk⟩
+    · rintro ⟨k, rfl, hk⟩
+      cases k with
+      | zero => left; exact ⟨rfl, b, by omega, by simpa using hk⟩
+      | succ k => right; exact ⟨k, by omega, by simpa using hk⟩
+
+theorem mem_edges (A : Mat) (i j : Nat) : (i, j) ∈ edges A ↔ entry A i j ≠ 0 := by
+  unfold edges
+  rw [mem_edgesFrom, entry_eq']
+  constructor
+  · rintro ⟨k, rfl, hk⟩; simpa using hk
+  · intro h; exact ⟨i, by omega, h⟩
+
+theorem entry_ne_zero_lt (n : Nat) (A : Mat) (hsq : isSquare n A = true) (i j : Nat) (h : entry A i j ≠ 0) :
+    i < n ∧ j < n := by
+  obtain ⟨hl, hr⟩ := (isSquare_iff n A).mp hsq
+  rw [entry_eq'] at h
+  by_cases hi : i < A.length
+  · have hrow : A[i]? = some A[i] := List.getElem?_eq_getElem hi
+    rw [hrow] at h
+    simp only [Option.getD_some] at h
+    have hlen : A[i].length = n := hr _ (List.getElem_mem hi)
+    by_cases hj : j < A[i].length
+    · exact ⟨by omega, by rw [← hlen]; exact hj⟩
+    · have hn : A[i][j]? = none := List.getElem?_eq_none (by omega)
+      rw [hn] at h
+      simp at h
+  · have hn : A[i]? = none := List.getElem?_eq_none (by omega)
+    rw [hn] at h
+    simp at h
+
+theorem edges_lt (n : Nat) (A : Mat) (hsq : isSquare n A = true) :
+    ∀ e ∈ edges A, e.1 < n ∧ e.2 < n := by
+  intro e he
+  exact entry_ne_zero_lt n A hsq e.1 e.2 ((mem_edges A e.1 e.2).mp he)
+
+
 end PorepyVerif.C37
